@@ -30,25 +30,34 @@ if HERE not in sys.path:
     sys.path.insert(0, HERE)
 from common import run_driver, widths, DEVNAMES, device_classes  # noqa: E402
 import asmcommon as ac  # noqa: E402
+import disgen  # noqa: E402
 
 ID = 'C09'
-LEAN_MODULES = ['Py65.Props.C09']
-NAMESPACES = ['Py65.Props.C09']
+LEAN_MODULES = ['Py65.Props.C09', disgen.GENEQ_MODULE, 'Py65.Props.C09g']
+NAMESPACES = ['Py65.Props.C09', 'Py65.Props.C09g', disgen.GENEQ_NAMESPACE]
 LEVEL = 'proof'
 USES_GEN = True
 EXPECTED_THEOREMS = [
     'Py65.Props.C09.dis_total', 'Py65.Props.C09.dis_len', 'Py65.Props.C09.dis_undeclared',
     'Py65.Props.C09.dis_len_eq_exec', 'Py65.Props.C09.dis_branch_target', 'Py65.Props.C09.dis_branch_taken',
     'Py65.Props.C09.dis_jmp_jsr',
-]
+    # the same for the GENERATED instruction_at (tie by regeneration, harness/py2lean_dis.py)
+    'Py65.Props.C09g.dis_total', 'Py65.Props.C09g.dis_len', 'Py65.Props.C09g.dis_undeclared',
+    'Py65.Props.C09g.dis_len_eq_exec', 'Py65.Props.C09g.dis_branch_target', 'Py65.Props.C09g.dis_branch_taken',
+    'Py65.Props.C09g.dis_jmp_jsr',
+] + disgen.GENEQ_THEOREMS
+pre_build = disgen.pre_build
 RULE = ('devices x opcode bytes 0..255 enumerated; addresses {0,1,top-2,top-1,top} then random; operand cells from '
         'boundary classes then random; label tables aimed at the operand, the operand word, the branch target and '
         'their neighbours.  distinct = distinct (device, pc, cells, labels) inputs; nontrivial = the opcode is declared '
         '(text carries an operand or a mnemonic), or the address is one of the last three (operand fetch wraps)')
 TRUSTED = [
+    disgen.TRUSTED_TEXT,
+    disgen.MODELLED_TEXT,
     'hand model Py65.Model.Disasm (per-mode text and length, label_for = first label, relative target with wrap, '
-    'WordAt / ByteAt reads modulo the address space) -- tied to the code by sampled correspondence only (this '
-    'check); opcode tables, widths and formats are the regenerated Py65.Gen.Tables',
+    'WordAt / ByteAt reads modulo the address space): no longer trusted by itself -- it is proved equal to the '
+    'generated function (instruction_at_eq) and is what the driver runs for the sampled correspondence of this '
+    'check; opcode tables, widths and formats are the regenerated Py65.Gen.Tables',
     'Spec.Cpu.step (programming model; C01-C03 tie it to the translated device code) for the execution theorems; '
     'the execution comparison of this check runs the REAL device',
     'documented tables parsed from lean/Py65/Spec/Isa.lean by harness/asmcommon.py',
@@ -60,6 +69,7 @@ ASSUMPTIONS = [
     'memory spans the address space and reduces addresses modulo its size (ObservableMemory); on a plain list '
     'instruction_at(top) raises IndexError from ByteAt(pc + 1) -- outside C09',
     'operand cells are within the device byte width; label values within the address space',
+    'generated model: memory cells and addresses are not negative ("%0Nx" % n is modelled for n >= 0)',
 ]
 
 CONTROL = ('BCC', 'BCS', 'BEQ', 'BMI', 'BNE', 'BPL', 'BVC', 'BVS', 'BRA', 'JMP', 'JSR', 'RTS', 'RTI', 'BRK')
